@@ -8,8 +8,6 @@ import GJS.Props.FlatGen
 namespace GJS.Props.Tree
 open GJS GJS.Props.Flat
 
-def isObj (p : Schema) : Bool := p.node.types == ["object"]
-
 /-- the Go type of a member before optional members are wrapped in a pointer -/
 def memTy (scope : String) (t : Schema) (n : String) : GoTy :=
   if isObj (propOf t n) then .named (scope ++ fname n) else scalarTy (propOf t n)
@@ -47,13 +45,6 @@ def treeDecls (cfg : Config) : Nat → String → Schema → List Decl
   | d + 1, scope, t =>
     (sortedKeys t.node.props).flatMap (fun n =>
       if isObj (propOf t n) then treeDecls cfg d (scope ++ fname n) (propOf t n) else []) ++ [nodeDecl cfg scope t]
-
-/-- the type names generated for the tree -/
-def scopes : Nat → String → Schema → List String
-  | 0, _, _ => []
-  | d + 1, scope, t =>
-    (sortedKeys t.node.props).flatMap (fun n =>
-      if isObj (propOf t n) then scopes d (scope ++ fname n) (propOf t n) else []) ++ [scope]
 
 structure ObjShape (t : Schema) : Prop where
   types : t.node.types = ["object"]
